@@ -1,5 +1,283 @@
-import TcheranVerif.Model.Search
+import TcheranVerif.Model.TT
+/-!
+# C19 — the transposition table never confuses positions and keeps honest statistics
+
+Theorems over `Model/TT.lean` for **every** sequence of operations, key and table size:
+`WF` (slot invariant `key % n = i`, `occupied` = number of occupied slots, 8-bit generation, size
+bookkeeping) is preserved by every operation (`wf_*`, `wf_run`); a probe answers only from an entry
+stored under exactly that key (`get_sound`), and that entry is the latest admitted insert
+(`get_insert_admitted`, `get_insert_rejected`, `insert_other_key`); the replacement policy has the
+four clauses of the property (`policy_*`); `reset`/`resize` empty the table; the fill indicator is
+`⌊1000·occupied/n⌋` (the Rust evaluates it in `f32`: ± 1 permille, checked by correspondence).
+-/
 namespace Tcheran.Props.C19
-theorem placeholder : True := trivial
+open Tcheran Tcheran.TT Std
+
+structure WF (t : Table) : Prop where
+  size_ok : t.n = entriesFor t.sizeMb
+  slot_ok : ∀ i e, t.slots[i]? = some e → i < t.n ∧ e.key.toNat % t.n = i
+  occ_ok : t.occupied = t.slots.size
+  gen_ok : t.generation < 256
+
+theorem wf_new (mb : Nat) : WF (TT.new mb) := by
+  refine ⟨rfl, ?_, ?_, by simp [TT.new, TT.empty]⟩
+  · intro i e h; simp [TT.new, TT.empty] at h
+  · simp [TT.new, TT.empty]
+
+theorem wf_reset (t : Table) (h : WF t) : WF t.reset := by
+  refine ⟨h.size_ok, ?_, ?_, by simp [Table.reset]⟩
+  · intro i e he; simp [Table.reset] at he
+  · simp [Table.reset]
+
+theorem wf_resize (t : Table) (mb : Nat) (h : WF t) : WF (t.resize mb) := by
+  unfold Table.resize
+  split
+  · exact h
+  · exact wf_new mb
+
+theorem wf_newGeneration (t : Table) (h : WF t) : WF t.newGeneration := by
+  refine ⟨h.size_ok, h.slot_ok, h.occ_ok, ?_⟩
+  simp only [Table.newGeneration]; omega
+
+theorem idx_lt (t : Table) (k : BB) (hn : t.n ≠ 0) : t.idx k < t.n := by
+  unfold Table.idx; exact Nat.mod_lt _ (by omega)
+
+theorem wf_insert (t : Table) (k : BB) (d : Data) (h : WF t) : WF (t.insert k d) := by
+  unfold Table.insert
+  split
+  · exact h
+  · rename_i hn
+    simp only
+    split
+    · rename_i old hold
+      split
+      · refine ⟨h.size_ok, ?_, ?_, h.gen_ok⟩
+        · intro i e he
+          simp only [HashMap.getElem?_insert] at he
+          split at he
+          · rename_i hi
+            have : t.idx k = i := by simpa using hi
+            cases he
+            exact ⟨this ▸ idx_lt t k hn, this ▸ rfl⟩
+          · exact h.slot_ok i e he
+        · simp only [HashMap.size_insert]
+          have : t.idx k ∈ t.slots := by
+            rw [HashMap.mem_iff_isSome_getElem?, hold]; rfl
+          rw [if_pos this]; exact h.occ_ok
+      · exact h
+    · rename_i hnone
+      refine ⟨h.size_ok, ?_, ?_, h.gen_ok⟩
+      · intro i e he
+        simp only [HashMap.getElem?_insert] at he
+        split at he
+        · rename_i hi
+          have : t.idx k = i := by simpa using hi
+          cases he
+          exact ⟨this ▸ idx_lt t k hn, this ▸ rfl⟩
+        · exact h.slot_ok i e he
+      · simp only [HashMap.size_insert]
+        have : ¬ t.idx k ∈ t.slots := by
+          rw [HashMap.mem_iff_isSome_getElem?, hnone]; simp
+        rw [if_neg this, h.occ_ok]
+
+/-- **get_sound**: a hit comes from an entry stored under exactly the probed key, in its own slot -/
+theorem get_sound (t : Table) (k : BB) (d : Data) (hg : t.get k = some d) :
+    ∃ e, t.slots[t.idx k]? = some e ∧ e.key = k ∧ e.data = d := by
+  unfold Table.get at hg
+  split at hg
+  · cases hg
+  · split at hg
+    · rename_i e he
+      split at hg
+      · rename_i hk
+        cases hg
+        exact ⟨e, he, hk, rfl⟩
+      · cases hg
+    · cases hg
+
+/-- the admission condition of `insert` -/
+def admitted (t : Table) (k : BB) (d : Data) : Prop :=
+  t.n ≠ 0 ∧ (t.slots[t.idx k]? = none ∨ ∃ old, t.slots[t.idx k]? = some old ∧ shouldOverwrite old.data d = true)
+
+/-- **get_insert_admitted**: what the policy admits is what the next probe of that key returns -/
+theorem get_insert_admitted (t : Table) (k : BB) (d : Data) (h : admitted t k d) :
+    (t.insert k d).get k = some d := by
+  obtain ⟨hn, hs⟩ := h
+  have hidx : ∀ t' : Table, t'.n = t.n → t'.idx k = t.idx k := fun t' e => by simp [Table.idx, e]
+  unfold Table.insert
+  rw [if_neg hn]
+  simp only
+  rcases hs with hnone | ⟨old, hold, hov⟩
+  · rw [hnone]
+    simp only [Table.get, hn, if_false, Table.idx, HashMap.getElem?_insert, beq_self_eq_true, if_true]
+  · rw [hold]
+    simp only [hov, if_true]
+    simp only [Table.get, hn, if_false, Table.idx, HashMap.getElem?_insert, beq_self_eq_true, if_true]
+
+/-- **get_insert_rejected**: a rejected insert leaves the table exactly as it was -/
+theorem get_insert_rejected (t : Table) (k : BB) (d : Data) (old : Entry)
+    (hold : t.slots[t.idx k]? = some old) (hrej : shouldOverwrite old.data d = false) :
+    t.insert k d = t := by
+  unfold Table.insert
+  split
+  · rfl
+  · simp only [hold, hrej]
+    rfl
+
+theorem get_after_slot_insert (t : Table) (k k' : BB) (d x : Data) (occ : Nat) (hne : k' ≠ k) (hn : t.n ≠ 0)
+    (hg : ({ t with slots := t.slots.insert (t.idx k) ⟨k, d⟩, occupied := occ } : Table).get k' = some x) :
+    t.get k' = some x := by
+  unfold Table.get at hg ⊢
+  rw [if_neg hn] at hg ⊢
+  have hidx : ({ t with slots := t.slots.insert (t.idx k) ⟨k, d⟩, occupied := occ } : Table).idx k' = t.idx k' := rfl
+  rw [hidx] at hg
+  have hslots : ({ t with slots := t.slots.insert (t.idx k) ⟨k, d⟩, occupied := occ } : Table).slots
+      = t.slots.insert (t.idx k) ⟨k, d⟩ := rfl
+  rw [hslots, HashMap.getElem?_insert] at hg
+  by_cases hi : (t.idx k == t.idx k') = true
+  · rw [if_pos hi] at hg
+    simp only at hg
+    rw [if_neg (fun h => hne h.symm)] at hg
+    cases hg
+  · rw [if_neg hi] at hg
+    exact hg
+
+/-- **insert_other_key**: an insert never makes data appear under a different key -/
+theorem insert_other_key (t : Table) (k k' : BB) (d x : Data) (hne : k' ≠ k)
+    (hg : (t.insert k d).get k' = some x) : t.get k' = some x := by
+  by_cases hn : t.n = 0
+  · have e : t.insert k d = t := by unfold Table.insert; rw [if_pos hn]
+    rwa [e] at hg
+  · cases hs : t.slots[t.idx k]? with
+    | none =>
+      have e : t.insert k d = { t with slots := t.slots.insert (t.idx k) ⟨k, d⟩, occupied := t.occupied + 1 } := by
+        unfold Table.insert; rw [if_neg hn]; simp only [hs]
+      rw [e] at hg
+      exact get_after_slot_insert t k k' d x _ hne hn hg
+    | some old =>
+      by_cases hov : shouldOverwrite old.data d = true
+      · have e : t.insert k d = { t with slots := t.slots.insert (t.idx k) ⟨k, d⟩, occupied := t.occupied } := by
+          unfold Table.insert; rw [if_neg hn]; simp only [hs, hov, if_true]
+        rw [e] at hg
+        exact get_after_slot_insert t k k' d x _ hne hn hg
+      · have e : t.insert k d = t := by
+          unfold Table.insert; rw [if_neg hn]; simp only [hs, hov]; rfl
+        rwa [e] at hg
+
+/-! ### the replacement policy -/
+
+/-- entries from earlier searches always give way -/
+theorem policy_stale (old new : Data) (h : new.age ≠ old.age) : shouldOverwrite old new = true := by
+  unfold shouldOverwrite; simp [h]
+
+/-- within one search an exact result is displaced only by another exact result or a deeper one -/
+theorem policy_exact_kept (old new : Data) (hage : new.age = old.age) (hold : old.bound = .exact)
+    (hnew : new.bound ≠ .exact) (hdepth : new.depth ≤ old.depth) : shouldOverwrite old new = false := by
+  unfold shouldOverwrite
+  simp [hage, hnew, hold]
+  omega
+
+theorem policy_exact_or_deeper (old new : Data) (h : new.bound = .exact ∨ new.depth > old.depth) :
+    shouldOverwrite old new = true := by
+  unfold shouldOverwrite
+  rcases h with h | h
+  · by_cases h1 : new.age ≠ old.age
+    · simp [h1]
+    · by_cases h2 : new.depth > old.depth <;> simp [h1, h2, h]
+  · by_cases h1 : new.age ≠ old.age <;> simp [h1, h]
+
+/-! ### reset / resize / statistics -/
+
+theorem reset_empty (t : Table) (k : BB) : t.reset.get k = none := by
+  unfold Table.get Table.reset
+  split
+  · rfl
+  · simp
+
+theorem reset_counters (t : Table) : t.reset.occupied = 0 ∧ t.reset.generation = 0 := ⟨rfl, rfl⟩
+
+theorem resize_empty (t : Table) (mb : Nat) (h : t.sizeMb ≠ mb) (k : BB) :
+    (t.resize mb).get k = none ∧ (t.resize mb).occupied = 0 ∧ (t.resize mb).generation = 0
+      ∧ (t.resize mb).n = entriesFor mb := by
+  unfold Table.resize
+  rw [if_neg h]
+  refine ⟨?_, rfl, rfl, rfl⟩
+  unfold Table.get TT.empty
+  split
+  · rfl
+  · simp
+
+/-- after `ucinewgame` the table is the table of a freshly started engine (C12) -/
+theorem reset_is_new (t : Table) (h : WF t) : t.reset = TT.new t.sizeMb := by
+  unfold Table.reset TT.new TT.empty
+  cases t
+  simp only at h ⊢
+  have := h.size_ok
+  simp only at this
+  simp [this]
+
+theorem hashfull_spec (t : Table) (h : WF t) (hn : t.n ≠ 0) :
+    t.hashfullExact = 1000 * t.slots.size / t.n := by
+  unfold Table.hashfullExact
+  rw [if_neg hn, h.occ_ok]
+
+theorem entries_per_mb (mb : Nat) : entriesFor mb = mb * 65536 := by
+  unfold entriesFor entrySize; omega
+
+/-! ### every operation sequence -/
+
+inductive Op
+  | insert (k : BB) (d : Data)
+  | newGeneration
+  | reset
+  | resize (mb : Nat)
+
+def apply (t : Table) : Op → Table
+  | .insert k d => t.insert k d
+  | .newGeneration => t.newGeneration
+  | .reset => t.reset
+  | .resize mb => t.resize mb
+
+theorem wf_apply (t : Table) (op : Op) (h : WF t) : WF (apply t op) := by
+  cases op with
+  | insert k d => exact wf_insert t k d h
+  | newGeneration => exact wf_newGeneration t h
+  | reset => exact wf_reset t h
+  | resize mb => exact wf_resize t mb h
+
+/-- the invariant holds after any number of operations of any kind, for every table size -/
+theorem wf_run (mb : Nat) (ops : List Op) : WF (ops.foldl apply (TT.new mb)) := by
+  suffices ∀ t, WF t → WF (ops.foldl apply t) from this _ (wf_new mb)
+  induction ops with
+  | nil => intro t h; exact h
+  | cons op ops ih => intro t h; exact ih _ (wf_apply t op h)
+
+/-- non-vacuity: a colliding pair on a 1 MB table, the stale one gives way -/
+example : admitted ((TT.new 1).insert 5#64 ⟨.exact, 10, 3, 0, none⟩) (65541#64) ⟨.upper, 1, 1, 1, none⟩ := by
+  refine ⟨by simp [TT.new, TT.empty, Table.insert, entriesFor, entrySize],
+    Or.inr ⟨⟨5#64, ⟨.exact, 10, 3, 0, none⟩⟩, ?_, by decide⟩⟩
+  simp [TT.new, TT.empty, Table.insert, Table.idx, entriesFor, entrySize]
+
 end Tcheran.Props.C19
-#print axioms Tcheran.Props.C19.placeholder
+#print axioms Tcheran.Props.C19.wf_new
+#print axioms Tcheran.Props.C19.wf_reset
+#print axioms Tcheran.Props.C19.wf_resize
+#print axioms Tcheran.Props.C19.wf_newGeneration
+#print axioms Tcheran.Props.C19.idx_lt
+#print axioms Tcheran.Props.C19.wf_insert
+#print axioms Tcheran.Props.C19.get_sound
+#print axioms Tcheran.Props.C19.get_insert_admitted
+#print axioms Tcheran.Props.C19.get_insert_rejected
+#print axioms Tcheran.Props.C19.get_after_slot_insert
+#print axioms Tcheran.Props.C19.insert_other_key
+#print axioms Tcheran.Props.C19.policy_stale
+#print axioms Tcheran.Props.C19.policy_exact_kept
+#print axioms Tcheran.Props.C19.policy_exact_or_deeper
+#print axioms Tcheran.Props.C19.reset_empty
+#print axioms Tcheran.Props.C19.reset_counters
+#print axioms Tcheran.Props.C19.resize_empty
+#print axioms Tcheran.Props.C19.reset_is_new
+#print axioms Tcheran.Props.C19.hashfull_spec
+#print axioms Tcheran.Props.C19.entries_per_mb
+#print axioms Tcheran.Props.C19.wf_apply
+#print axioms Tcheran.Props.C19.wf_run
